@@ -248,7 +248,7 @@ def run(tier, seed):
         hbin = binary
         hcases = gen_hilbert(tier, rng)
         himpl, hmodel = vlib.differential(rep, hbin, hcases, sdir, "hilbert", canon=canon, nontrivial=lambda c, i: True,
-                                          clause=lambda c: "hilbert:" + c.split()[0])
+                                          clause=lambda c: "hilbert:" + c.split()[0], batch=10 ** 9)     # index outputs are short: one batch
         hilbert_oracles(rep, hcases, himpl)
         rep.coverage["rule"] = ("exhaustive: every cell of levels 0..%s (d=1..4) x {unbox,box,parent,child code, interaction list (periodic/not), neighbour list (periodic/not x upper filter)}; all codes; "
                                 "random cells up to the UB-free level %s; random groups for the block builders. non-trivial = non-empty list / any scalar query; distinct by case text" % ({d: EXH[d][0 if tier == 'quick' else 1] for d in EXH}, SAFE_LEVEL))
